@@ -815,12 +815,17 @@ theorem isAuthoritativeV2_good (v : View) (hs : V2KeysOk v.store) (q : Bytes) (h
     (Or.inr ⟨by omega, by intro h; cases h⟩)
   rw [hst']
   obtain ⟨ns, auth, zl, pn⟩ := st'
-  show q.drop (q.length - zl) ≠ []
+  show q.drop (q.length - (if ns = true then zl else 1)) ≠ []
   have hq1 : 1 ≤ q.length := List.length_pos_iff.mpr hq.ne_nil
+  have hJ' : 1 ≤ zl := hJ
+  have hk : 1 ≤ (if ns = true then zl else 1) := by
+    by_cases hns : ns = true
+    · rw [if_pos hns]; exact hJ'
+    · rw [if_neg hns]; exact Nat.le_refl 1
+  generalize (if ns = true then zl else 1) = k at hk
   intro h
   have := congrArg List.length h
   simp only [List.length_drop, List.length_nil] at this
-  have hJ' : 1 ≤ zl := hJ
   omega
 
 theorem findAnswerV2_no_panic (v : View) (hs : V2KeysOk v.store) (q control qnameOut : Bytes) (qtype : Nat)
